@@ -99,7 +99,7 @@ def run(ctx):
         rt = big.add({"kind": "tree", "entries": [(0o40000, b"big", bt)]})
         prev = rootc = big.add({"kind": "commit", "tree": rt, "parents": [], "date": 1000000000})
         sm = big.add({"kind": "blob", "size": 3, "data": None})
-        for i in range(1500 if quick else 6000):
+        for i in range(3000 if quick else 20000):      # more ids than the request side of the second pipeline can buffer
             t = big.add({"kind": "tree", "entries": [(0o100644, b"f%d" % i, sm)]})
             prev = big.add({"kind": "commit", "tree": t, "parents": [prev], "date": 1000000001 + i})
         rel = big.add({"kind": "tag", "target": rootc, "name": b"release"})
@@ -279,6 +279,21 @@ def run(ctx):
                 elif rc != 0:
                     res.violations.append(vlib.Violation("-race run failed: %s" % err[:200].decode("latin1"), {"args": fmt}))
             shutil.rmtree(d, ignore_errors=True)
+        # the long history (thousands of commits requested from cat-file --batch while earlier ones are being parsed)
+        bins_keep0 = eng.bins
+        eng.bins = dict(bins_keep0, sizer=race)
+        try:
+            rc, out, err, log = eng.run_fake(big, border, ["--json", "--no-progress"], [], extra_args=[], env={"GOMAXPROCS": "4", "GORACE": "halt_on_error=0 exitcode=66"}, timeout=600)
+            nraces += 1
+            res.case(("race-long-history",), True)
+            errb = err if isinstance(err, bytes) else str(err).encode()
+            if b"DATA RACE" in errb or rc == 66:
+                res.violations.append(vlib.Violation("the race detector reported a data race", {"args": ["--json"], "repository": "long linear history (fake git)"},
+                                                     observed=errb[max(0, errb.find(b"DATA RACE") - 20):][:1500].decode("latin1")))
+            elif rc != 0:
+                res.violations.append(vlib.Violation("-race run failed: %s" % errb[-300:].decode("latin1"), {"args": ["--json"]}))
+        finally:
+            eng.bins = bins_keep0
         # a scan whose phases outlast several ticker periods, progress on: the meter's reporter goroutine really runs next
         # to the counting (on small repositories every phase is over before the first tick)
         if "fl" in dir():
